@@ -61,6 +61,8 @@ def build(case):
     real = kind in models.REAL
     dt = DT[case.get('dtype', 'f64' if real else 'c128')]
     s.data = models.make_data(rng, kind, lead, K, N, D, cls=case.get('cls', 'gauss'), dtype=dt, E=case.get('E'), spread=case.get('spread', 3.0), offset=case.get('offset', 0.0))
+    if case.get('e_dtype') == 'f32' and 'e' in s.data:
+        s.data['e'] = s.data['e'].astype(np.float32)       # mixed precision: double-precision STFT with single-precision network embeddings
     relayout(s.data, case.get('layout', 'c'))
     s.K, s.N, s.D, s.lead = K, N, D, lead
     aff_shape = (*lead, K, N)
@@ -75,7 +77,7 @@ def build(case):
         s.np_seed = int(case['rs'][-1]) % (2 ** 31)
     elif init.startswith('dirichlet'):
         s.init = gen.dirichlet_init(rng, lead, K, N, alpha=float(init.split(':')[1]))
-    elif init == 'onehot':
+    elif init.startswith('onehot'):
         s.init, _ = gen.onehot_init(rng, lead, K, N)
     elif init.startswith('blur'):
         s.init, _ = gen.onehot_init(rng, lead, K, N, blur=float(init.split(':')[1]))
@@ -110,6 +112,9 @@ def build(case):
         s.saliency = 10 ** rng.uniform(-2, 0, size=sal_shape)
         if lead and o.get('saliency_slice_scale') == 'all':
             s.saliency = s.saliency * 10 ** rng.uniform(-1, 1, size=(*lead, 1))
+    elif sal == 'tiny':
+        # weights of the magnitude of the power of a quiet recording: only relative weights may matter
+        s.saliency = rng.uniform(0.1, 1.0, size=sal_shape) * 10 ** rng.uniform(-14, -9)
     elif sal == 'zeros':
         s.saliency = rng.uniform(0.1, 1.0, size=sal_shape)
         z = rng.uniform(size=sal_shape) < 0.2
@@ -186,6 +191,9 @@ def build(case):
     copts['singleton_init'] = init.startswith('singleton')
     s.opts, s.tkw, s.copts = opts, tkw, copts
     s.iterations = case.get('iters', 3)
+    if init in ('onehot:bool', 'onehot:int') and s.init is not None and np.isin(s.init, (0, 1)).all():
+        # hard starts as label code produces them (labels_to_one_hot returns a boolean array by default)
+        s.init = s.init.astype(bool if init.endswith('bool') else np.int64)
     return s
 
 
@@ -284,4 +292,9 @@ def sample_opts(rng, kind, lead, full=True):
         o['spatial_weight'], o['spectral_weight'] = sw
         # with one stream switched off every permutation has the same criterion value: the choice is a rounding-level tie
         o['inline_permutation_alignment'] = bool(rng.uniform() < 0.3) and 0.0 not in sw
+    # a quarter of the time an option is not passed at all: the library's own default applies (the monitors know the documented
+    # defaults), so that a changed default or two entry points with different defaults are exercised too
+    for name in ('covariance_norm', 'hermitize', 'eigenvalue_floor', 'affiliation_eps', 'max_concentration', 'min_concentration', 'covariance_type'):
+        if name in o and rng.uniform() < 0.25:
+            del o[name]
     return o
